@@ -839,7 +839,7 @@ func (e *evalEnv) call(x *ast.CallExpr) tv {
 			if vs, ok := mt.Elem().Underlying().(*types.Slice); !ok || slots(vs.Elem()) != 1 || kindOf(vs.Elem()) != "I" {
 				e.fail(x, "mapview(): values must be byte slices")
 			}
-			return tv{term: fmt.Sprintf("(mkSMap (select %s %s) (mvview (select %s %s) %s))", e.st.H["MD"], m.term, e.st.H["ML"], m.term, e.st.H["I"]), typ: types.NewMap(mt.Key(), tString), smap: true}
+			return tv{term: fmt.Sprintf("(mkSMap (select %s %s) (mvview (select %s %s) (select %s %s) %s))", e.st.H["MD"], m.term, e.st.H["MD"], m.term, e.st.H["ML"], m.term, e.st.H["I"]), typ: types.NewMap(mt.Key(), tString), smap: true}
 		case "seen":
 			// seen(k): key k has been produced by the (single) map range loop of this function
 			var it string
